@@ -112,6 +112,7 @@ func damagedPDF(r *sim.Rand) Doc {
 	sp.Pages = 1 + r.Intn(3)
 	sp.Lines = 1 + r.Intn(4)
 	sp.BigStream = 0
+	sp.Bulk = 0
 	if r.Pct(60) {
 		sp.Filter = 4 + r.Intn(3) // filter arrays
 	}
